@@ -720,21 +720,24 @@ def connectToPeer (s : St) (pi : Nat) : St :=
         let s := s.modConn cid fun c => { c with state := .connected }
         sendCer s cid
 
+/-- Body of the `_reconnect_peers` loop for one peer. -/
+def reconnectStep (s : St) (pi : Nat) : St :=
+  match s.peers[pi]? with
+  | none => s
+  | some p =>
+    if !p.persistent then s
+    else if p.connection.isSome then s
+    else match p.lastDisconnect with
+      | none => s
+      | some ld =>
+        if ld == 0 then s
+        else if s.now - ld < p.wait then s
+        else if p.reason == some .dpr && !p.always then s
+        else connectToPeer s pi
+
 /-- `_reconnect_peers`. -/
 def reconnectPeers (s : St) : St :=
   if s.stopping then s
-  else (List.range s.peers.length).foldl (fun s pi =>
-    match s.peers[pi]? with
-    | none => s
-    | some p =>
-      if !p.persistent then s
-      else if p.connection.isSome then s
-      else match p.lastDisconnect with
-        | none => s
-        | some ld =>
-          if ld == 0 then s
-          else if s.now - ld < p.wait then s
-          else if p.reason == some .dpr && !p.always then s
-          else connectToPeer s pi) s
+  else (List.range s.peers.length).foldl reconnectStep s
 
 end DV.Node
